@@ -23,9 +23,40 @@ func block() {
 	cur = t
 }
 
+// SyncHook, when set by the harness, is asked at every synchronisation point
+// whether the running task should be pre-empted right there (synchronisation
+// operations are where interleavings matter most; the window between an
+// Unlock and the caller's next instruction contains no Yield of its own).
+var SyncHook func() bool
+
+// SyncPoints counts synchronisation operations executed (fault statistics).
+var SyncPoints uint64
+
+// syncPoint is a scheduling point like Yield, placed inside the cooperative
+// primitives themselves.
+func syncPoint() {
+	SyncPoints++
+	Steps++
+	t := cur
+	if t == nil {
+		return
+	}
+	t.OpSteps++
+	t.LastSite = 0
+	t.Budget--
+	if t.Budget > 0 && (SyncHook == nil || !SyncHook()) {
+		return
+	}
+	cur = nil
+	t.sched.back <- Preempted
+	<-t.wake
+	cur = t
+}
+
 type Mutex struct{ locked bool }
 
 func (m *Mutex) Lock() {
+	syncPoint()
 	for m.locked {
 		block()
 	}
@@ -43,6 +74,7 @@ func (m *Mutex) Unlock() {
 		panic("sync: unlock of unlocked mutex")
 	}
 	m.locked = false
+	syncPoint()
 }
 
 type RWMutex struct {
@@ -51,6 +83,7 @@ type RWMutex struct {
 }
 
 func (m *RWMutex) Lock() {
+	syncPoint()
 	for m.writer || m.readers > 0 {
 		block()
 	}
@@ -61,8 +94,10 @@ func (m *RWMutex) Unlock() {
 		panic("sync: Unlock of unlocked RWMutex")
 	}
 	m.writer = false
+	syncPoint()
 }
 func (m *RWMutex) RLock() {
+	syncPoint()
 	for m.writer {
 		block()
 	}
@@ -73,6 +108,7 @@ func (m *RWMutex) RUnlock() {
 		panic("sync: RUnlock of unlocked RWMutex")
 	}
 	m.readers--
+	syncPoint()
 }
 func (m *RWMutex) TryLock() bool {
 	if m.writer || m.readers > 0 {
@@ -94,6 +130,7 @@ type Once struct {
 }
 
 func (o *Once) Do(f func()) {
+	syncPoint()
 	if o.done {
 		return
 	}
@@ -118,11 +155,25 @@ var PoolChoice = func(n int) int { return n - 1 }
 var PoolGets, PoolDrops uint64
 
 type Pool struct {
-	New   func() any
-	items []any
+	New        func() any
+	items      []any
+	registered bool
+}
+
+// pools lists every Pool that ever held an item, so that the harness can
+// empty them between scenarios (one scenario = one world: what a pool retains
+// is process history, which a scenario must create itself to observe).
+var pools []*Pool
+
+// DrainPools empties every pool (legal at any time: the GC may do the same).
+func DrainPools() {
+	for _, p := range pools {
+		p.items = nil
+	}
 }
 
 func (p *Pool) Get() any {
+	syncPoint()
 	PoolGets++
 	if n := len(p.items); n > 0 {
 		i := PoolChoice(n)
@@ -145,7 +196,12 @@ func (p *Pool) Put(x any) {
 	if x == nil {
 		return
 	}
+	if !p.registered {
+		p.registered = true
+		pools = append(pools, p)
+	}
 	p.items = append(p.items, x)
+	syncPoint()
 }
 
 // ---------------------------------------------------------------------------
